@@ -143,6 +143,7 @@ def c02(F, R):
     e5_formulas.base_formula_rules(F, R)
     e9_witness.witness_rules(F, R)
     e1_layout.impl_bound_rules(F, R)
+    trusted_ref_rules(F, R)
     FOUNDATION(F, R)
 
 
@@ -163,6 +164,7 @@ def c03(F, R):
     e7_containers.flex_reader(F, R)
     e7_containers.array_validator(F, R)
     EMPLACE(F, R)
+    trusted_ref_rules(F, R)
     FOUNDATION(F, R)
 
 
@@ -340,6 +342,42 @@ def c11(F, R):
     FOUNDATION(F, R)
 
 
+TRUSTED_REF_OK = {
+    # self type of an `unsafe impl TrustedRef` -> why moving a value of that type does not move the bytes `as_ref()` yields
+    "&'a T": "a reference: the pointee stays where it is",
+    "&'a mut T": "a reference: the pointee stays where it is",
+    "core::pin::Pin<P>": "a pinned pointer (P: Deref)",
+    "core::cell::Ref<'a, T>": "a borrow guard: holds a reference",
+    "core::cell::RefMut<'a, T>": "a borrow guard: holds a reference",
+    "alloc::boxed::Box<T>": "heap allocation owned through a pointer",
+    "alloc::rc::Rc<T>": "heap allocation owned through a pointer",
+    "alloc::sync::Arc<T>": "heap allocation owned through a pointer",
+    "alloc::vec::Vec<T>": "heap buffer owned through a pointer",
+    "alloc::string::String": "heap buffer owned through a pointer",
+    "alloc::ffi::c_str::CString": "heap buffer owned through a pointer",
+    "flatty_containers::bytes::AlignedBytes": "heap allocation owned through a pointer",
+    "stavec::generic::GenericVec<&'a mut [S], L>": "the container is a reference to the slots",
+    "core::mem::manually_drop::ManuallyDrop<T>": "inline, but no AsRef<[u8]> exists for it, so it cannot be the pointer of a FlatWrap",
+}
+
+
+def trusted_ref_rules(F, R):
+    """T1: FlatWrap checks alignment / validity once (on the by-value pointer argument) and re-maps the bytes unchecked at every Deref. That is
+    sound only if moving the wrapper does not move the bytes. Who may promise that (`unsafe impl TrustedRef`) is a confirmed table of
+    pointer-like types; an impl for a type that can hold its bytes inline (e.g. every `GenericVec<C, L>`, whose `C` may be an array) lets safe
+    code obtain a misaligned reference by moving the wrapper."""
+    ims = [im for im in F.impls if (im.get("trait") or "") == "flatty_containers::wrap::TrustedRef"]
+    for im in ims:
+        ok = im["self"] in TRUSTED_REF_OK
+        R.ob("T1.trusted-ref-impls", im["self"], "address-stable", ok,
+             "unsafe impl TrustedRef for %s: %s" % (im["self"], TRUSTED_REF_OK.get(im["self"], "NOT in the confirmed table of types whose bytes "
+                                                                                    "stay in place when the value is moved (inline storage possible)")),
+             where=im["span"])
+    others = [im for im in F.impls if (im.get("trait") or "").endswith("::TrustedRef") and im not in ims]
+    R.ob("T1.trusted-ref-impls", "flatty", "who-may-impl", not others and len(ims) >= 10,
+         "TrustedRef is implemented only in flatty_containers::wrap (%d impls, floor 10)" % len(ims), where="containers/src/wrap.rs")
+
+
 def no_shadowing(F, R):
     """FlatVec / FlatString add no inherent methods: every operation is the Deref target's (stavec's), so its refusal semantics are not overridden."""
     inh = []
@@ -453,6 +491,7 @@ def c15(F, R):
     e6_generated.generated_rules(F, R, {"ptr"})
     e9_witness.witness_rules(F, R)
     EMPLACE(F, R)
+    trusted_ref_rules(F, R)
     FOUNDATION(F, R)
 
 
@@ -545,6 +584,7 @@ def c20(F, R):
 
 errkind_inventory = _once(errkind_inventory)
 no_shadowing = _once(no_shadowing)
+trusted_ref_rules = _once(trusted_ref_rules)
 container_cmp_rules = _once(container_cmp_rules)
 composite_limit = _once(composite_limit)
 framing_rules = _once(framing_rules)
